@@ -46,7 +46,17 @@ func (a action) String() string {
 	return a.Op
 }
 
+// focusAlphabet: one coroutine, the actions around protected calls,
+// to-be-closed variables, yield and close (deeper histories are affordable).
+func focusAlphabet() []action {
+	return []action{{Op: "yield"}, {Op: "return"}, {Op: "error"}, {Op: "tbc"}, {Op: "pcall"}, {Op: "tbcres"}, {Op: "status"},
+		{"create", "A"}, {"resume", "A"}, {"close", "A"}, {"wrap", "A"}, {"call", "A"}}
+}
+
 func alphabet(names []string) []action {
+	if len(names) == 1 && names[0] == "focus" {
+		return focusAlphabet()
+	}
 	var al []action
 	for _, op := range []string{"yield", "return", "status", "error", "tbc", "pcall", "errort", "info", "tbcres", "ctx", "ctxm", "spin"} {
 		al = append(al, action{Op: op})
@@ -93,6 +103,15 @@ func runHistory(h []action, tape vsched.Tape) (res result) {
 	invalid := false
 	var outcome string
 	var expectParked int64 = -1
+	// A coroutine that yields out of a callcontext leaves that context pushed
+	// (the known finding recorded for C05/C06): the context-depth invariant is
+	// only checked for histories without ctx/ctxm actions.
+	ctxLeakExpected := false
+	for _, a := range h {
+		if a.Op == "ctx" || a.Op == "ctxm" {
+			ctxLeakExpected = true
+		}
+	}
 	body := func() {
 		r := rt.New(nil)
 		runtime.SetFinalizer(r, nil)
@@ -167,6 +186,17 @@ func runHistory(h []action, tape vsched.Tape) (res result) {
 		} else if n, ok := term2.Get(0).TryInt(); ok {
 			expectParked = n
 		}
+		// End-state invariants of the main thread and the runtime: nothing
+		// may leak from one call into the next.
+		if d := r.MainThread().VerifGoFunctionCallDepth(); d != 0 {
+			outcome += fmt.Sprintf(" INVARIANT(go-call-depth=%d after the call returned)", d)
+		}
+		if d := r.MainThread().VerifCloseStackSize(); d != 0 {
+			outcome += fmt.Sprintf(" INVARIANT(close-stack=%d after the call returned)", d)
+		}
+		if d := r.VerifContextDepth(); d != 0 && !ctxLeakExpected {
+			outcome += fmt.Sprintf(" INVARIANT(context-depth=%d after the call returned)", d)
+		}
 		r.Close(nil)
 		if cleanup != nil {
 			cleanup()
@@ -184,6 +214,13 @@ func runHistory(h []action, tape vsched.Tape) (res result) {
 		res.obs += fmt.Sprintf(" LEAK(parked goroutines=%d, live coroutines=%d: %s)", res.rep.ParkedEnd, expectParked, strings.Join(res.rep.ParkedWhat, ","))
 	}
 	return
+}
+
+func coName(names []string) string {
+	if len(names) == 1 && names[0] == "focus" {
+		return "focus"
+	}
+	return fmt.Sprintf("co%d", len(names))
 }
 
 func histString(h []action) string {
@@ -240,6 +277,9 @@ func exploreHistory(h []action, c cfg, o *core.Outcome) {
 			addV("race "+rc, fmt.Sprintf("schedule %s: unordered conflicting accesses (no happens-before): %s", sched, rc))
 		}
 		if len(r.rep.Panics) == 0 && r.rep.Deadlock == "" && !r.rep.Horizon {
+			if k := strings.Index(r.obs, " INVARIANT("); k >= 0 {
+				addV("end-state-invariant", fmt.Sprintf("schedule %s: %s", sched, r.obs))
+			}
 			if strings.Contains(r.obs, " LEAK(") {
 				addV("goroutine-leak", fmt.Sprintf("schedule %s: %s", sched, r.obs))
 			}
@@ -281,11 +321,13 @@ func families(tier string) []*core.Family {
 			{cfg{names: []string{"A", "B"}, depth: 4, bound: 3, prefix: 2, maxExec: 50000}, 480},
 			{cfg{names: []string{"A", "B", "C"}, depth: 5, bound: 1, prefix: 2, maxExec: 50000}, 480},
 			{cfg{names: []string{"A", "B", "C"}, depth: 6, bound: 0, prefix: 3, maxExec: 50000}, 240},
+			{cfg{names: []string{"focus"}, depth: 7, bound: 1, prefix: 2, maxExec: 50000}, 300},
 		}
 	} else {
 		fcs = []fc{
 			{cfg{names: []string{"A", "B"}, depth: 3, bound: 2, prefix: 2, maxExec: 20000}, 100},
 			{cfg{names: []string{"A", "B"}, depth: 4, bound: 1, prefix: 2, maxExec: 20000}, 150},
+			{cfg{names: []string{"focus"}, depth: 6, bound: 0, prefix: 2, maxExec: 20000}, 150},
 		}
 	}
 	var out []*core.Family
@@ -294,8 +336,10 @@ func families(tier string) []*core.Family {
 	}
 	if tier == "thorough" {
 		out = append(out, refFamily([]string{"A", "B", "C"}, 7, 3, 480))
+		out = append(out, refFamily([]string{"focus"}, 9, 2, 300))
 	} else {
 		out = append(out, refFamily([]string{"A", "B"}, 5, 2, 120))
+		out = append(out, refFamily([]string{"focus"}, 7, 2, 150))
 	}
 	return out
 }
@@ -316,7 +360,7 @@ func family(c cfg, budget int) *core.Family {
 		return h
 	}
 	return &core.Family{
-		Name:          fmt.Sprintf("sched-depth%d-bound%d-co%d", c.depth, c.bound, len(c.names)),
+		Name:          fmt.Sprintf("sched-depth%d-bound%d-%s", c.depth, c.bound, coName(c.names)),
 		Size:          size,
 		HangSeconds:   300,
 		BudgetSeconds: budget,
@@ -433,7 +477,7 @@ func refFamily(names []string, depth, prefix, budget int) *core.Family {
 		return h
 	}
 	return &core.Family{
-		Name: fmt.Sprintf("refco-depth%d-co%d", depth, len(names)), Size: size, HangSeconds: 300, BudgetSeconds: budget,
+		Name: fmt.Sprintf("refco-depth%d-%s", depth, coName(names)), Size: size, HangSeconds: 300, BudgetSeconds: budget,
 		Show: func(i uint64) string {
 			return "histories starting with [" + histString(decode(i)) + "], all extensions to the depth bound, compared with the reference model"
 		},
